@@ -471,7 +471,7 @@ static int the_hook(int kind, const char *path, char *const argv[], char *const 
     call_t *c = cur_call;
     long long h1 = (c && c->snap) ? heap_now() : 0;     /* mallinfo2 only when asked for (not under TSan's allocator) */
     int saved_errno;
-    if (g_lift_fsize_after_call) { struct rlimit rl = { RLIM_INFINITY, RLIM_INFINITY }; setrlimit(RLIMIT_FSIZE, &rl); g_lift_fsize_after_call = 0; }
+    if (g_lift_fsize_after_call) { struct rlimit rl; getrlimit(RLIMIT_FSIZE, &rl); rl.rlim_cur = rl.rlim_max; setrlimit(RLIMIT_FSIZE, &rl); g_lift_fsize_after_call = 0; }
     if (g_markers) prctl(MARK, 2, 0, 0, 0);
     if (S.ok && S.coop_point) S.coop_point('r');
     if (!c) { errno = ENOSYS; return -1; }
@@ -562,7 +562,7 @@ static void call_run(call_t *c)
     if (c->kind == 1) ret = execve(c->path, c->argv, c->envp);
     else ret = execv(c->path, c->argv);
     err = errno;
-    if (g_lift_fsize_after_call) { struct rlimit rl = { RLIM_INFINITY, RLIM_INFINITY }; setrlimit(RLIMIT_FSIZE, &rl); g_lift_fsize_after_call = 0; }
+    if (g_lift_fsize_after_call) { struct rlimit rl; getrlimit(RLIMIT_FSIZE, &rl); rl.rlim_cur = rl.rlim_max; setrlimit(RLIMIT_FSIZE, &rl); g_lift_fsize_after_call = 0; }
     if (g_markers) prctl(MARK, 3, 0, 0, 0);
     c->h2 = c->snap ? heap_now() : 0;
     cur_call = NULL;
@@ -974,7 +974,9 @@ static void run_ops(op_t *ops, int nops)
             for (int k = 0; k < nsinks; k++) if (sinks[k].type == SK_DGRAM) sinks[k].type = 0;
             free(pth); break; }
         case 'l': { /* file size limit (bytes) with SIGXFSZ ignored: writes crossing it come back short, then fail with EFBIG */
-            struct rlimit rl; rl.rlim_cur = rl.rlim_max = (rlim_t) arg_ll(&op->a[0]);
+            struct rlimit rl;
+            getrlimit(RLIMIT_FSIZE, &rl);
+            rl.rlim_cur = (rlim_t) arg_ll(&op->a[0]);        /* soft limit only: it can be lifted again without privileges */
             g_lift_fsize_after_call = 1;     /* the harness's own result file must not be cut */
             signal(SIGXFSZ, SIG_IGN);
             if (setrlimit(RLIMIT_FSIZE, &rl) < 0) ev_error("setrlimit");
